@@ -213,8 +213,25 @@ func (c *c11) ctorCase(ms []rmem, label string) (sz sizes) {
 	if a := diff(got, snap(out)); a != "" {
 		r.FailHere("inject-extract|"+a+" differs", desc(), "carrier %s, extracted %s, injected %s", abbr(car.Get("baggage")), canonAll(snap(out), true), canonAll(got, true))
 	}
+	// ... also when the receiving context already carries another baggage (middleware, a second
+	// hop): what comes out is what was injected, not a mixture (an empty header leaves the context
+	// as it is, so this is judged for non-empty baggage only)
+	if bag.Len() > 0 {
+		stage = "Inject/Extract into a context that already carries baggage"
+		prior, err := baggage.Parse("zz-prior=1;p=q," + c11PriorKey + "=prior-value")
+		if err != nil {
+			panic(err)
+		}
+		out2 := baggage.FromContext(c.prop.Extract(baggage.ContextWithBaggage(context.Background(), prior), car))
+		if a := diff(got, snap(out2)); a != "" {
+			r.FailHere("inject-extract|into a context that already carries baggage|"+a+" differs", desc(), "carrier %s extracted into a context holding %s gives %s, injected %s", abbr(car.Get("baggage")), prior.String(), canonAll(snap(out2), true), canonAll(got, true))
+		}
+	}
 	return
 }
+
+// c11PriorKey: a key the receiving context's own baggage shares with many enumerated ones.
+const c11PriorKey = "a"
 
 // propLists: every property list of exactly n symbols of prAlpha.
 func propLists(n int, f func(ps []rprop) bool) bool {
